@@ -18,7 +18,10 @@ import (
 type cell struct{ x, y int64 }
 
 func latticeStar(r *gen.R, W, H int64) []cell {
-	n := r.Range(3, 9)
+	return latticeStarN(r, W, H, r.Range(3, 9))
+}
+
+func latticeStarN(r *gen.R, W, H int64, n int) []cell {
 	seen := map[cell]bool{}
 	var pts []cell
 	for len(pts) < n {
